@@ -12,9 +12,9 @@ func init() {
 		ID: "C08", Bubble: false, Run: runC08, QuickRuns: 2000,
 		Rule: "one run = twin instances of Vegas / Gradient / Gradient2 built with the same configuration and the same math/rand seed, fed the same seeded prefix history (asserted: equal estimate and baseline), then one final sample differing only in rtt (baseline <= rtt_low < rtt_high); oracle: estimate(high) <= estimate(low); pairs where the final sample was a probe or lowered the baseline are skipped and counted; " +
 			"non-trivial = the pair was not skipped and at least one twin changed its estimate on the final sample; distinct = distinct choice tapes",
-		Real:       []string{"limit.VegasLimit", "limit.GradientLimit", "limit.Gradient2Limit", "measurements.*"},
-		Stubs:      []string{"logger"},
-		FaultKinds: []string{"F-latency", "F-drop", "F-idle"},
+		Real:        []string{"limit.VegasLimit", "limit.GradientLimit", "limit.Gradient2Limit", "measurements.*"},
+		Stubs:       []string{"logger"},
+		FaultKinds:  []string{"F-latency", "F-drop", "F-idle"},
 		Assumptions: []string{"hidden jitter draws are made identical by rand.Seed (GODEBUG randseednop=0)"},
 	})
 	Register(&Prop{
@@ -22,9 +22,9 @@ func init() {
 		Rule: "one run = Vegas (probe multiplier 1..60) or Gradient (probe interval 1..2000 or disabled) fed 200..1700 samples with rtt in [1, 2^53): backend model with step changes up and down, spikes and plateaus; an observer that needs no private state keeps the set of reset positions consistent with every RTTNoLoad() seen so far; " +
 			"oracle: baseline unset or <= current rtt; the feasible set never empties (baseline is the minimum of the samples since some reset); the most recent feasible reset is younger than multiplier x (largest estimate+1) + 1 (Vegas) / 2 x interval (Gradient); " +
 			"non-trivial = the rtt level stepped up at least once so that an obsolete baseline had to be replaced by a probe; distinct = distinct choice tapes",
-		Real:       []string{"limit.VegasLimit", "limit.GradientLimit", "measurements.MinimumMeasurement"},
-		Stubs:      []string{"logger"},
-		FaultKinds: []string{"F-latency"},
+		Real:        []string{"limit.VegasLimit", "limit.GradientLimit", "measurements.MinimumMeasurement"},
+		Stubs:       []string{"logger"},
+		FaultKinds:  []string{"F-latency"},
 		Assumptions: []string{"rtt < 2^53 so RTTNoLoad round-trips exactly through float64"},
 	})
 	Register(&Prop{
@@ -308,22 +308,24 @@ func tailInts(x []int, n int) []int {
 }
 
 type noteListener struct {
-	regAt  int
-	calls  int
-	last   int
+	regAt     int
+	calls     int
+	last      int
 	callsInOp int
 }
 
 // recLimit records the samples it receives (delegate for the traced forwarding sub-check).
 type recLimit struct {
-	est  int
-	got  []Sample
-	lst  []core.LimitChangeListener
+	est int
+	got []Sample
+	lst []core.LimitChangeListener
 }
 
-func (l *recLimit) EstimatedLimit() int                          { return l.est }
-func (l *recLimit) NotifyOnChange(c core.LimitChangeListener)   { l.lst = append(l.lst, c) }
-func (l *recLimit) OnSample(st int64, rtt int64, f int, d bool) { l.got = append(l.got, Sample{Start: st, RTT: rtt, InFlight: f, Drop: d}) }
+func (l *recLimit) EstimatedLimit() int                       { return l.est }
+func (l *recLimit) NotifyOnChange(c core.LimitChangeListener) { l.lst = append(l.lst, c) }
+func (l *recLimit) OnSample(st int64, rtt int64, f int, d bool) {
+	l.got = append(l.got, Sample{Start: st, RTT: rtt, InFlight: f, Drop: d})
+}
 
 func runC16(r *Run) {
 	t := r.T
